@@ -114,7 +114,7 @@ def gen_cfg(rng: Rng, spec, use_mc=None, origin=None, force_all_mts=False, expli
                                             'release': mc['release']},
         'origin': origin or rng.choice(['CREATE', 'IMPORT']),
         'copyright': rng.choice(COPYRIGHTS), 'creator_info': rng.choice(CREATORS),
-        'prefix': prefix, 'verbose': False,
+        'prefix': prefix, 'verbose': False, 'companion': Rng(rng.state, 'companion').chance(30),
         'expect': expect,
     }
     return cfg
